@@ -86,6 +86,31 @@ def r8_sweep(db, rep, pp):
     if not tests:
         rep.violation("R8-sweep", key, facts.loc(pp), "process_packet never tests the keep-alive deadline: idle streams are never timed out")
         return
+    # the sweep erases streams: it must not run between the look-up and the last use of the iterator it returned
+    itv = None
+    idx_, par_ = facts.index_fn(pp)
+    p_ = par_.get(finds[0]["id"])
+    while p_ is not None and p_["k"] not in ("VarDecl", "BinaryOperator", "CXXOperatorCallExpr", "CompoundStmt"):
+        p_ = par_.get(p_["id"])
+    if p_ is not None and p_["k"] == "VarDecl":
+        itv = p_["var"]
+    elif p_ is not None and p_["k"] in ("BinaryOperator", "CXXOperatorCallExpr") and p_.get("op") == "=":
+        itv = facts.strip_all(p_["c"][0] if p_["k"] == "BinaryOperator" else p_["c"][1]).get("var")
+    sweeps = [n for n in facts.fn_nodes(pp) if n["k"] == "CXXMemberCallExpr" and
+              (n.get("cname") == "cleanup_streams" or n.get("callee") in sweepers) and g.pos(n)]
+    if itv is not None:
+        uses = [n for n in facts.fn_nodes(pp) if n["k"] == "DeclRefExpr" and n.get("var") == itv and g.pos(n)]
+        for t_ in sweeps:
+            if not g.reachable(g.pos(finds[0]), g.pos(t_)):
+                continue
+            late = [u for u in uses if g.reachable(g.pos(t_), g.pos(u)) and not g.reachable(g.pos(u), g.pos(t_))]
+            if late:
+                rep.violation("R8-sweep", "process_packet:sweep-before-use", facts.loc(pp, t_),
+                              "the keep-alive sweep (which erases streams) runs between the stream look-up and a later use of the iterator "
+                              "`%s` (line %s): the packet's own stream, if idle for the keep-alive, is reported as TIMEOUT and erased before "
+                              "the packet refreshes it, and the iterator dangles" % (facts.expr_str(late[0]), late[0].get("l")))
+                return
+        rep.ok("R8-sweep", "process_packet:sweep-before-use", facts.loc(pp, finds[0]), "no sweep between the look-up and the uses of its iterator")
     w = g.reaches_exit_avoiding(g.pos(finds[0]), tests, normal_only=True)
     if w is None:
         rep.ok("R8-sweep", key, facts.loc(pp, finds[0]), "every normal path from the look-up passes one of the %d keep-alive tests" % len(tests))
